@@ -592,4 +592,57 @@ pub(crate) mod verif_cmd {
         kani::cover!(ok);
         kani::cover!(!ok);
     } }
+
+    // ================================================================= passwords from the environment
+    pub static mut ENV_SET: bool = true;
+    pub static mut ENV_READS_OLD: usize = 0;
+    pub static mut ENV_READS_NEW: usize = 0;
+    pub fn env_var_model<K: AsRef<std::ffi::OsStr>>(key: K) -> Result<String, std::env::VarError> {
+        let k = key.as_ref().as_encoded_bytes();
+        unsafe {
+            // KESTREL_PASSWORD (16 bytes) vs KESTREL_NEW_PASSWORD (20 bytes)
+            let new = k.len() == 20;
+            if new { ENV_READS_NEW += 1; } else { ENV_READS_OLD += 1; }
+            if !ENV_SET { return Err(std::env::VarError::NotPresent); }
+            // values with leading and trailing whitespace: they must reach the key derivation unchanged
+            Ok(String::from(if new { " q " } else { " p " }))
+        }
+    }
+    /// C16/C02/C14: with --env-pass the password is exactly the value of KESTREL_PASSWORD (KESTREL_NEW_PASSWORD for the
+    /// new password of change-pass), byte for byte - including leading/trailing whitespace - so that the password a key
+    /// or file is locked under is the one that unlocks it; an unset variable is an error.
+    #[kani::proof]
+    #[kani::stub(std::env::var, env_var_model)]
+    #[kani::stub(std::backtrace::Backtrace::capture, bt_cut)]
+    #[kani::stub(core::fmt::write, fmtwrite_cut)]
+    #[kani::stub(alloc::fmt::format, format_cut)]
+    #[kani::unwind(8)]
+    pub fn cmd_env_passwords() {
+        unsafe { ENV_SET = kani::any(); }
+        let which: u8 = kani::any();
+        kani::assume(which <= 3);
+        let r = match which {
+            0 => ask_pass("Password: ", true),
+            1 => confirm_password("New password: ", true),
+            2 => confirm_new_pass("New password: ", true),
+            _ => read_env_pass(),
+        };
+        unsafe {
+            if !ENV_SET {
+                assert!(r.is_err(), "[C12,C13] --env-pass with the variable unset is an error");
+            } else {
+                assert!(r.is_ok(), "[C12] --env-pass with the variable set yields the password");
+                let p = r.as_ref().unwrap();
+                let b = p.as_bytes();
+                let want: &[u8; 3] = if which == 2 { b" q " } else { b" p " };
+                assert!(b.len() == 3 && b[0] == want[0] && b[1] == want[1] && b[2] == want[2],
+                        "[C16,C02,C14] the password taken from the environment is used byte for byte (whitespace included): the old one from KESTREL_PASSWORD, the new one of change-pass from KESTREL_NEW_PASSWORD");
+                if which == 2 { assert!(ENV_READS_NEW == 1 && ENV_READS_OLD == 0, "[C16] the NEW password comes from KESTREL_NEW_PASSWORD"); }
+                else { assert!(ENV_READS_OLD == 1 && ENV_READS_NEW == 0, "[C16,C02] the password comes from KESTREL_PASSWORD"); }
+            }
+        }
+        kani::cover!(which == 2 && r.is_ok());
+        kani::cover!(r.is_err());
+        core::mem::forget(r);
+    }
 }
